@@ -87,6 +87,16 @@ Definition gcons (o : list gopt) (r : gres) : gres :=
   | GStop os g rest => GStop (o ++ os) g rest
   end.
 
+(* the shape of one command-line word *)
+Inductive wkind := WDDash | WLong (body : str) | WShort (cs : str) | WOperand.
+Definition word_kind (a : str) : wkind :=
+  match a with
+  | 45 :: 45 :: [] => WDDash                     (* -- *)
+  | 45 :: 45 :: body => WLong body               (* --name[=value] *)
+  | 45 :: c :: cs => WShort (c :: cs)            (* -abc *)
+  | _ => WOperand                                (* anything else, also - and the empty word *)
+  end.
+
 (* the options of one word: continue, unless one of them is a stop option *)
 Fixpoint split_stop (stop : gopt -> bool) (o : list gopt) : list gopt * option gopt :=
   match o with
@@ -109,9 +119,9 @@ Fixpoint getopt_x (selfopt : str -> bool) (stop : gopt -> bool) (sp : optspec) (
   | [] => GOk [] []
   | a :: rest =>
       if selfopt a then gcons [GL [] (Some a)] (getopt_x selfopt stop sp rest) else
-      match a with
-      | 45 :: 45 :: [] => GOk [] rest                                    (* -- *)
-      | 45 :: 45 :: body =>                                              (* --name[=value] *)
+      match word_kind a with
+      | WDDash => GOk [] rest                                            (* -- *)
+      | WLong body =>                                                    (* --name[=value] *)
           let '(n, v) := split_eq body in
           match resolve_long n (longs sp) with
           | None => GErr
@@ -130,8 +140,8 @@ Fixpoint getopt_x (selfopt : str -> bool) (stop : gopt -> bool) (sp : optspec) (
                         end
               end
           end
-      | 45 :: c :: cs =>                                                 (* -abc *)
-          match cluster sp (c :: cs) with
+      | WShort cs =>                                                     (* -abc *)
+          match cluster sp cs with
           | CErr => GErr
           | CDone o => gword stop o rest (getopt_x selfopt stop sp rest)
           | CNeed o d => match rest with
@@ -139,7 +149,7 @@ Fixpoint getopt_x (selfopt : str -> bool) (stop : gopt -> bool) (sp : optspec) (
                          | [] => GErr
                          end
           end
-      | _ => GOk [] args                                                 (* first operand (also -) *)
+      | WOperand => GOk [] args                                          (* first operand (also -) *)
       end
   end.
 
